@@ -538,6 +538,9 @@ Eval(e, A, sc, calls) ==
                            LET b == Eval(e.e.e, A, sc, calls) IN
                            IF b.v.t = "map" THEN ROk(VB(MapHas(b.v, VS(NameText(e.e.n)))), r.calls)
                            ELSE IF b.v.t = "null" THEN ROk(VB(FALSE), r.calls) ELSE RErr("frag", r.calls)
+                      \* a call or a filter application that gave a value: that value is there (the operand has been evaluated
+                      \* above: what fails or cannot be resolved inside it surfaces, "defined" tolerates absent names only)
+                      [] e.tn = "defined" /\ e.e.k \in {"spy", "filt", "call"} /\ r.v.t # "null" -> ROk(VB(TRUE), r.calls)
                       [] e.tn = "empty" -> ROk(VB(IsEmptyVal(r.v)), r.calls)
                       [] e.tn = "null" -> ROk(VB(r.v.t = "null"), r.calls)
                       [] e.tn = "even" /\ r.v.t = "int" -> ROk(VB(r.v.i % 2 = 0), r.calls)
